@@ -6,7 +6,13 @@ import sys
 
 
 def summarise(t):
-    return json.loads(json.dumps([t.items, list(t.outcome())], default=str))
+    out = [t.items, list(t.outcome())]
+    if t.spec.get("consumer"):
+        import re
+        ansi = re.compile(r"\x1b\[[0-9;]*m")
+        out.append([ansi.sub("", o).split() if isinstance(o, str) else bytes(o).hex() for o in t.out])
+        out.append(None if t.exc is None else [type(t.exc).__name__, bool(t.decoder_raised)])
+    return json.loads(json.dumps(out, default=str))
 
 
 def main():
@@ -29,7 +35,7 @@ def run_threads(specs, seed, gap=40, concat=None, timeout=180):
     return run_fresh({"specs": specs, "threads": seed, "gap": gap, "concat": concat}, timeout=timeout)
 
 
-def run_fresh(specs, timeout=120, optimize=False):
+def run_fresh(specs, timeout=120, optimize=False, env_extra=None):
     """-> list of [items, outcome] as decoded by a fresh interpreter (optimize: started with -O, i.e. asserts stripped -
     PYTHONOPTIMIZE is a common production setting)"""
     import os
@@ -37,6 +43,7 @@ def run_fresh(specs, timeout=120, optimize=False):
     verif = os.path.dirname(os.path.dirname(os.path.abspath(__file__)))
     src = os.environ.get("VERIF_REPO_SRC", "/repo/src")
     env = dict(os.environ, PYTHONPATH=src + os.pathsep + verif, PYTHONDONTWRITEBYTECODE="1", PYTHONHASHSEED="0")
+    env.update(env_extra or {})
     p = subprocess.run([sys.executable] + (["-O"] if optimize else []) + ["-c", "import sim.pristine as p; p.main()"], input=json.dumps(specs).encode(),
                        capture_output=True, env=env, timeout=timeout, cwd="/")
     if p.returncode != 0:
